@@ -41,16 +41,19 @@ type feState struct {
 	free      []condFact // undecided conditions taken on this path
 	mem       map[*ssa.Alloc]feVal // last value stored into local cells on this path
 	loads     map[*ssa.UnOp]feVal  // value a load of a local cell observed on this path
+	seq       int
 }
 
 type feStore struct {
 	Store *ssa.Store
 	Val   feVal
+	Seq   int
 }
 
 type feCall struct {
 	Call ssa.CallInstruction
 	Args []feVal // evaluated at the time of the call (receiver included for static method calls)
+	Seq  int
 }
 
 type feEnd struct {
@@ -67,7 +70,7 @@ type feVal struct {
 }
 
 func (s *feState) clone() *feState {
-	n := &feState{prev: s.prev, cur: s.cur,
+	n := &feState{prev: s.prev, cur: s.cur, seq: s.seq,
 		phis: map[*ssa.Phi]constant.Value{}, phiSrc: map[*ssa.Phi]ssa.Value{}, visits: map[*ssa.BasicBlock]int{}}
 	for k, v := range s.phis {
 		n.phis[k] = v
@@ -161,7 +164,8 @@ func (w *feWalker) walk(st *feState) {
 			switch x := in.(type) {
 			case *ssa.Store:
 				sv := w.evalVal(st, x.Val)
-				st.stores = append(st.stores, feStore{x, sv})
+				st.seq++
+				st.stores = append(st.stores, feStore{x, sv, st.seq})
 				if al, ok := x.Addr.(*ssa.Alloc); ok {
 					st.mem[al] = sv
 				}
@@ -176,7 +180,8 @@ func (w *feWalker) walk(st *feState) {
 					}
 				}
 			case ssa.CallInstruction:
-				fc := feCall{Call: x}
+				st.seq++
+				fc := feCall{Call: x, Seq: st.seq}
 				for _, a := range x.Common().Args {
 					fc.Args = append(fc.Args, w.evalVal(st, a))
 				}
